@@ -4,7 +4,8 @@
    Every theorem quantifies over the statement semantics [code] (any program), the shared and local
    state types, and the clock; "reachable" = reachable from the start of main by machine steps. *)
 From Coq Require Import List ZArith Bool Arith.
-From Cb Require Import C15.Model C15.Prog C15.Invariants C15.Fifo C15.Await C15.Sleep C15.Determinism C15.Refuted.
+From Cb Require Import C15.Model C15.Body C15.Prog C15.Invariants C15.Fifo C15.Await C15.Sleep C15.Determinism C15.Refuted
+  C15.BodyLaws C15.LoopLaws.
 Import ListNotations.
 Local Open Scope nat_scope.
 
@@ -236,6 +237,82 @@ Theorem task_facts_are_stable :
 Proof. exact run_evolves. Qed.
 Print Assumptions task_facts_are_stable.
 
+(* ------------------------------------------------------------------ loop-iteration boundaries *)
+(* Body.exec = one step of a structured statement (blocks, if, for, while, continue, break, yield,
+   return, calls), as execute_for_statement / execute_while_statement / execute_compound_statement run
+   and resume it; [its] = what the step does, with ghost marks IIter / IIterEnd id k for the start and
+   the end of an iteration.  k = IFall (the body ran to its end) and k = IContinue are the ends that do
+   not leave the loop: the loop-iteration boundaries.  The theorems quantify over the statement, the
+   fuel and the environment (variables + resume positions left by ANY earlier suspensions). *)
+
+(* Inside a task (auto-yield mode): however the iteration ended - falling off the end of the body or
+   `continue` from any depth of blocks / if branches - the boundary is the last thing the step does:
+   the step ends with YieldException(true), only marks of enclosing loops follow (none of them a
+   boundary) and no boundary precedes it: a task never runs two iterations in one turn.
+   Exit kinds that leave the loop (break, return) or suspend inside it are not boundaries. *)
+Theorem task_iteration_end_suspends :
+  forall (A : Type) fuel (s : bstmt A) e its r e',
+  wc_free A s = true -> bexec A true fuel s e = (its, r, e') ->
+  forall pre id k post, its = pre ++ IIterEnd id k :: post -> boundary k = true ->
+    r = RYield true /\
+    Forall (fun it => exists id' k', it = IIterEnd id' k' /\ boundary k' = false) post /\
+    Forall (fun it => is_boundary A it = false) pre.
+Proof. exact exec_task_law_l. Qed.
+Print Assumptions task_iteration_end_suspends.
+
+(* Outside a task (main, a plain function called by main): every boundary is immediately followed by
+   run_background_tasks_one_cycle. *)
+Theorem main_iteration_end_runs_background :
+  forall (A : Type) fuel (s : bstmt A) e its r e',
+  wc_free A s = true -> bexec A false fuel s e = (its, r, e') ->
+  forall pre id k post, its = pre ++ IIterEnd id k :: post -> boundary k = true ->
+    exists post', post = IBg :: post'.
+Proof. exact exec_main_law_l. Qed.
+Print Assumptions main_iteration_end_runs_background.
+
+(* wc_free excludes exactly the while loops whose iteration can end by `continue`: for them both laws
+   fail on the faithful model (and on the binary: known finding C15-while-continue-no-suspension).
+   q = 0; while (q < 2) { q = q + 1; println(7); continue; } *)
+Theorem while_continue_keeps_the_turn_refuted :
+  exists fuel (s : bstmt nat) e its r e' pre id post x,
+    bexec nat true fuel s e = (its, r, e') /\
+    its = pre ++ IIterEnd id IContinue :: post /\ In (ISimple x) post.
+Proof. exact while_continue_task_refuted_l. Qed.
+Print Assumptions while_continue_keeps_the_turn_refuted.
+
+Theorem while_continue_skips_background_refuted :
+  exists fuel (s : bstmt nat) e its r e' pre id post,
+    bexec nat false fuel s e = (its, r, e') /\
+    its = pre ++ IIterEnd id IContinue :: post /\ ~ (exists post', post = IBg :: post').
+Proof. exact while_continue_main_refuted_l. Qed.
+Print Assumptions while_continue_skips_background_refuted.
+
+(* the request tree the machine runs for such a step: whatever the scheduler replies, a step that
+   reaches a boundary ends its statement with YieldException(true) *)
+Theorem boundary_step_ends_with_loop_yield :
+  forall (b : bstmt simple) l o l',
+  wc_free simple b = true ->
+  has_boundary simple (fst (fst (bexec simple true body_fuel b (l_env l)))) = true ->
+  leaf (denote true (SBody b) l) o l' -> o = OYield true.
+Proof. exact denote_task_boundary_yields_l. Qed.
+Print Assumptions boundary_step_ends_with_loop_yield.
+
+(* ... and the machine ends the turn: the task keeps its statement index, leaves the executing chain
+   and is appended at the BACK of the ready queue; with [round_robin] every queued task gets exactly
+   one turn before it runs its next iteration *)
+Theorem loop_yield_requeues_at_back :
+  forall (L G C : Type) (len : C -> nat) (code : C -> nat -> L -> prog L G C) (clock : nat -> Z)
+         (dflt : L) (main_code : C) (s : state L G C) l id rest t,
+  kont _ _ _ s = FProg _ _ _ (PDone _ _ _ (OYield true) l) :: FStep _ _ _ id :: rest ->
+  lookup _ _ id (tasks _ _ _ s) = Some t ->
+  step L G C len code clock dflt main_code s =
+    (mkState _ _ _ (queue _ _ _ s ++ [id])
+             (update _ _ id (fun _ => set_pos _ _ l (t_idx _ _ t) t) (tasks _ _ _ s))
+             (tl (exec _ _ _ s)) (reads _ _ _ s) (glob _ _ _ s) rest,
+     [EYield id true (t_idx _ _ t); ERequeue id]).
+Proof. exact loop_yield_requeues_at_back_l. Qed.
+Print Assumptions loop_yield_requeues_at_back.
+
 (* ------------------------------------------------------------------ non-vacuity *)
 (* two tasks with two yields each, started by main and awaited: the model's turn order *)
 Example two_workers_alternate :
@@ -251,3 +328,16 @@ Example sleeper_is_polled_then_completed :
   let tr := snd (crun funs 10 60 cinit) in
   asleeps tr = 1 /\ In (EWoke 2 1000030 1000030) tr /\ In (EComplete 1) tr.
 Proof. vm_compute. repeat split; auto 30. Qed.
+
+(* a for loop in a task whose every iteration ends by `continue` from inside an if and a nested block:
+   three turns print one line each, every turn ends at the boundary (hypotheses of
+   task_iteration_end_suspends / boundary_step_ends_with_loop_yield are met) *)
+Example continue_loop_suspends_every_iteration :
+  let body := BBlock 2 [BSimple (XPrint 7); BIf (CLt 0 9) (BBlock 3 [BBlock 4 [BContinue]]) None; BSimple (XPrint 8)] in
+  let lp : bstmt simple := BFor 1 0 3 body in
+  wc_free simple lp = true /\
+  has_boundary simple (fst (fst (bexec simple true body_fuel lp env0))) = true /\
+  (let funs := [[SSimple (XSpawn 1 0); SSimple (XAwait 0)]; [SBody lp; SReturn]] in
+   filter (fun ev => match ev with EOut _ | EYield _ _ _ => true | _ => false end) (snd (crun funs 5 200 cinit))
+   = [EOut 7; EYield 1 true 0; EOut 7; EYield 1 true 0; EOut 7; EYield 1 true 0]).
+Proof. vm_compute. repeat split; reflexivity. Qed.
